@@ -26,6 +26,47 @@ LATTICE = [('A', []), ('B', ['A']), ('C', ['B']), ('M', []), ('E', ['A']), ('D',
 # B and D are nested classes: __qualname__ differs from __name__
 QUALNAME = {'A': 'A', 'B': 'Outer.B', 'C': 'C', 'M': 'M', 'D': 'Outer.D', 'E': 'E', 'L': 'factory.<locals>.A'}
 KEY = {c: 'lattice.' + q for c, q in QUALNAME.items()}
+CHAIN = []          # K0 <- K1 <- ... : a single-inheritance chain longer than every size constant of the registry code (scale_lattice)
+LIST_COUNTS = []    # lengths of the lists instances are printed in
+_SCALED_FOR = [None]
+
+
+def scale_lattice(repo, rep=None):
+    """Adds to the lattice a chain of classes deeper than every size constant that is_registered / the dispatching entry compare
+    against (and than a fixed small depth), and fixes the lengths of the lists in which instances are printed: one more than every size
+    constant of the sequence printer (and a fixed small count).  Idempotent per repository object."""
+    from engine import thresholds
+    from . import shape as _S
+    if _SCALED_FOR[0] is repo:
+        return
+    m = repo.module('prettyprinter')
+    names = [n for n in ('is_registered', 'pretty_python_value', 'register_pretty', 'get_deferred_key', '_repr_pretty', '_run_pretty', '_run_pretty_visited') if n in m.funcs]
+    fns = []
+    for n_ in names:
+        fns.append(m.funcs[n_].node)
+    mined, _ = thresholds.mine([m], fns=fns, most=60)
+    depth = max(list(mined) + [8]) + 3
+    for name, _b in list(LATTICE):
+        if name.startswith('K') and name[1:].isdigit():
+            LATTICE.remove((name, _b))
+            QUALNAME.pop(name, None)
+            KEY.pop(name, None)
+    del CHAIN[:]
+    for i in range(depth):
+        name = 'K%d' % i
+        LATTICE.append((name, ['K%d' % (i - 1)] if i else []))
+        QUALNAME[name] = name
+        KEY[name] = 'lattice.' + name
+        CHAIN.append(name)
+    try:
+        counts, mined_seq = _S.scaled_counts(repo, _S.printer_for(repo, 'list'), most=60)
+    except AnalysisError:
+        counts, mined_seq = [_S.ALWAYS_COUNT], {}
+    LIST_COUNTS[:] = counts
+    _SCALED_FOR[0] = repo
+    if rep is not None:
+        rep.note('registry model: size constants of the lookup code %s -> a chain of %d classes; of the sequence printer %s -> lists of %s instances'
+                 % ({k: v[:1] for k, v in mined.items()} or 'none', depth, {k: v[:1] for k, v in mined_seq.items()} or 'none', counts))
 
 
 def _c3(name, bases, mros):
@@ -68,8 +109,9 @@ class World:
             'method:clear': self.m_clear,
             'repr': self.p_repr,
         }
+        self.used = []
         for k in range(1, 9):
-            prims['printer#%d' % k] = (lambda it, a, kw, n, k=k: Const('USED(printer#%d)' % k))
+            prims['printer#%d' % k] = (lambda it, a, kw, n, k=k: (self.used.append('printer#%d' % k), Const('USED(printer#%d)' % k))[1])
         self.sigs = []
         self.spec = None
         self.invisible = []
@@ -211,6 +253,7 @@ class World:
 
     def p_repr(self, it, a, k, n):
         if a and isinstance(a[0], ObjV) and a[0].cls is self.iinfo:
+            self.used.append('repr')
             return Const('USED(repr)')
         return NotImplemented
 
@@ -257,6 +300,17 @@ class World:
         if trailing:
             v = self.it.construct(TypeV(_roles.name(self.repo, 'trailing_cls')), [v, Const('note')], {}, None)
         return self._run('pretty_python_value', [v, self.ctx()], {})
+
+    def print_list(self, cname, count):
+        # the registered list printer itself, on a list of instances (the registrations made at import time are not part of the model)
+        from . import shape as _S
+        fn = _S.printer_for(self.repo, 'list')
+        items = ListV([self.instance(cname) for _ in range(count)])
+        self.it.paths_run = 0
+        prs = self.it.explore(fn, [items, self.ctx()], {})
+        if len(prs) != 1:
+            raise Undecided('%s forks into %d abstract paths on a list of %d instances' % (fn.name, len(prs), count))
+        return prs[0]
 
     # -- observation
     def snapshot(self):
@@ -350,6 +404,22 @@ def gen_histories(tier, seed):
     out += [[a] for a in regs]
     out += [[a, b] for a in regs for b in regs]
     out += [[a, mid, b] for a in regs for mid in mids for b in regs if not (a[0] in ('RP', 'RPS') and b[0] in ('RP', 'RPS'))]
+    # the deep chain: a printer registered (by class, by name) for its root, looked up for its leaf - directly, and as the elements of lists
+    if CHAIN:
+        root, second, leaf = CHAIN[0], CHAIN[1], CHAIN[-1]
+        sup = [f for f in FLAGS if f['check_superclasses'] and f['check_deferred']]
+        for reg in (('RN', root), ('RC', root)):
+            out.append([reg, ('P', leaf)])
+            out.append([reg, ('Q', leaf, sup[0])])
+            out.append([reg, ('Q', leaf, sup[-1]), ('P', leaf)])
+            out.append([reg, ('RN', second), ('P', leaf)])
+            for cnt in LIST_COUNTS:
+                out.append([reg, ('PL', leaf, cnt)])
+                out.append([reg, ('PL', leaf, cnt), ('P', leaf)])
+                out.append([('RN', 'B'), ('PL', 'C', cnt), ('Q', 'C', sup[0])])
+        for cnt in LIST_COUNTS:
+            out.append([('RP', frozenset({'C', 'D'})), ('PL', 'C', cnt)])
+            out.append([('PL', 'M', cnt)])
     if tier == 'thorough':
         out += [[a, b, mid, c] for a in regs for b in regs for mid in mids[:4] for c in regs[:7]]
         rng = random.Random(seed)
@@ -382,6 +452,8 @@ def _desc(h):
             out.append('print(%s())' % op[1])
         elif op[0] == 'PT':
             out.append('print(trailing_comment(%s(), ...))' % op[1])
+        elif op[0] == 'PL':
+            out.append('print([%s()] * %d)' % (op[1], op[2]))
         else:
             out.append('is_registered(%s, %s)' % (op[1], _fl(op[2])))
     return '; '.join(out) or '<no registrations>'
@@ -465,6 +537,7 @@ def check_histories(repo, rep):
     import multiprocessing as mp
     m = repo.module('prettyprinter')
     where = m.funcs['is_registered'].where if 'is_registered' in m.funcs else m.relpath
+    scale_lattice(repo, rep)
     hs = gen_histories(rep.tier, rep.seed)
     World(repo)     # fail early (AnalysisError) in this process
     jobs = 1 if mp.current_process().daemon else min(16, mp.cpu_count() or 1)
@@ -537,6 +610,16 @@ def _apply(w, spec, op, k, tally, hist, probe=False):
         tally.check(r.raised is None, 'C15.g', 'register:accepted', 'after %s: registration raises %s' % (desc, r.raised.what if r.raised else ''))
         tally.check(r.raised is not None or (isinstance(r.value, Prim) and r.value.name == printer.name), 'C15.g', 'register:returns-the-function',
                     'after %s: the decorator returns %s instead of the decorated function' % (desc, prov(r.value) if r.value is not None else None))
+    elif op[0] == 'PL':
+        want, kind = spec.printer_for(op[1])
+        del w.used[:]
+        r = w.print_list(op[1], op[2])
+        rule = {'class': 'C15.c', 'predicate': 'C15.f', 'repr': 'C15.f'}[kind]
+        got = sorted(set(w.used)) if r.raised is None else ['raised %s' % r.raised.what]
+        tally.check(r.raised is None and got == [want] and len(w.used) == op[2], rule, 'print-elements:%s' % {
+            'class': 'nearest-class-in-mro', 'predicate': 'first-accepting-predicate', 'repr': 'repr-when-nothing-registered'}[kind],
+            'history %s: the %d elements are printed by %s (%d printer calls), but the rule calls for %s for each (%s; MRO of %s is %s)'
+            % (desc, op[2], got, len(w.used), want, kind, op[1], ' > '.join(spec.mros[op[1]][:6])))
     elif op[0] in ('P', 'PT'):
         want, kind = spec.printer_for(op[1])
         r = w.print_(op[1], trailing=op[0] == 'PT')
